@@ -27,6 +27,18 @@ type Universe struct {
 	globals    map[*ssa.Global]int
 	funcIDs    map[*ssa.Function]int
 	extraDecls []string
+	oracleFuns map[string]string // name -> signature, declared in the prelude
+	oracleOrd  []string
+}
+
+func (u *Universe) addOracle(name, sig string) {
+	if u.oracleFuns == nil {
+		u.oracleFuns = map[string]string{}
+	}
+	if _, ok := u.oracleFuns[name]; !ok {
+		u.oracleFuns[name] = sig
+		u.oracleOrd = append(u.oracleOrd, name)
+	}
 }
 
 type valCtor struct {
@@ -238,6 +250,29 @@ func (u *Universe) Prescan(fns []*ssa.Function) {
 					if !isInterface(x.AssertedType) {
 						u.valCtorFor(x.AssertedType)
 					}
+				case *ssa.Call:
+					// oracle functions of interface method calls
+					com := x.Common()
+					if com.IsInvoke() {
+						var sorts []string
+						sorts = append(sorts, u.sortOf(com.Value.Type()))
+						ok := sorts[0] != ""
+						for _, a := range com.Args {
+							as := u.sortOf(a.Type())
+							if as == "" {
+								ok = false
+							}
+							sorts = append(sorts, as)
+						}
+						if ok {
+							sig := com.Signature()
+							for i := 0; i < sig.Results().Len(); i++ {
+								if rs := u.sortOf(sig.Results().At(i).Type()); rs != "" {
+									u.addOracle(fmt.Sprintf("inv_%s_%d", com.Method.Name(), i), "("+strings.Join(sorts, " ")+") "+rs)
+								}
+							}
+						}
+					}
 				}
 				// string constants
 				for _, op := range ins.Operands(nil) {
@@ -442,6 +477,16 @@ func (u *Universe) Prelude() string {
 	for _, d := range StubFuns {
 		sb.WriteString("(declare-fun " + d[0] + " " + d[1] + ")\n")
 	}
+	// oracles: interface method calls and calls through function values (DESIGN 2.2)
+	for _, n := range u.oracleOrd {
+		sb.WriteString("(declare-fun " + n + " " + u.oracleFuns[n] + ")\n")
+	}
+	for i := 0; i < 3; i++ {
+		for _, srt := range []string{"Val", "Err", "Int", "Bool", "Slice", "Real"} {
+			sb.WriteString(fmt.Sprintf("(declare-fun dynres_%d_%s (Int Int) %s)\n", i, srt, srt))
+		}
+	}
+	sb.WriteString("(define-fun uncmp ((v Val)) Bool (not (comparableVals v v)))\n")
 	for _, s := range u.strOrder {
 		sb.WriteString(fmt.Sprintf("(assert (= (strlen %d) %d)) ; %q\n", u.strIDs[s], len(s), trunc(s, 40)))
 	}
